@@ -170,6 +170,38 @@ fn edits<X: Sx>(ctx: &Ctx, idx: u64, l: usize, d: Vec<usize>, all_flips: bool) {
             rj("idx-count-mismatch", "-1".into(), &h.pk, &h.proof, &dm, &h.d[..rr - 1].to_vec(), ho, po);
         }
     }
+    // one of the two disclosure arguments absent (None) while the other is not empty: the lists differ in length, so the
+    // statement is not the one the proof was made for, whatever the proof discloses (wave-9 seed: Option::zip of the two)
+    if let Ok(p) = Pok::<X>::from_bytes(&h.proof) {
+        let forged = vec![b"role: admin".to_vec(), rand_bytes(&mut r, 32)];
+        let mut probes: Vec<(&str, Option<Vec<Vec<u8>>>, Option<Vec<usize>>)> = vec![
+            ("forged-msgs/None", Some(forged[..1].to_vec()), None),
+            ("forged-2-msgs/None", Some(forged.clone()), None),
+            ("None/index-0", None, Some(vec![0])),
+            ("Some-empty/index-0", Some(vec![]), Some(vec![0])),
+            ("forged-msgs/Some-empty", Some(forged[..1].to_vec()), Some(vec![])),
+        ];
+        if rr > 0 {
+            probes.push(("true-msgs/None", Some(dm.clone()), None));
+            probes.push(("None/true-indexes", None, Some(h.d.clone())));
+            probes.push(("None/None", None, None));
+            probes.push(("Some-empty/None", Some(vec![]), None));
+            probes.push(("None/Some-empty", None, Some(vec![])));
+        }
+        for (tag, m, di) in probes {
+            let case = format!("{}/one-disclosure-argument-absent/{}", base, tag);
+            ctx.distinct(&case);
+            let v = ctx.call("proof_verify", &case, None, || p.proof_verify(&h.pk, m.as_deref(), di.as_deref(), ho, po));
+            if v.outcome.is_ok() {
+                ctx.violation(
+                    "C04:accepted/one-disclosure-argument-absent",
+                    json!({"case":case,"pk":hx_full(&h.pk.to_bytes()),"proof":hx_full(&h.proof),
+                           "disclosed_messages":m.as_ref().map(|m| msgs_json(m)),"disclosed_indexes":di,"honest_disclosed":h.d,"L":l,
+                           "header":ho.map(hx),"ph":po.map(hx)}),
+                );
+            }
+        }
+    }
     // header / ph edits (octet-string inequality; None == empty)
     for (which, cur) in [("header", h.hdr.octets().to_vec()), ("ph", h.ph.octets().to_vec())] {
         let mut alts: Vec<Vec<u8>> = vec![];
